@@ -190,3 +190,39 @@ def discarded_results(ctx, funcs, rule='DISCARD'):
                           f"statement drops the validated / converted result",
                           key=f"{rule}|{fi.qualname}|{last}", where=loc(fi, st))
     return n
+
+
+def flag_drops(ctx, funcs, rule='RX-FLAGS'):
+    """`re.<f>(R.pattern, ...)` re-applies the pattern text of a compiled regex
+    R without R's flags (IGNORECASE / VERBOSE / ...): a different language."""
+    import re as _re
+    n = 0
+    for fi in funcs:
+        env = None
+        for c in walk_local(fi.node):
+            if not (isinstance(c, ast.Call) and (call_name(c) or '').startswith('re.')
+                    and (call_name(c) or '')[3:] in RE_FUNCS and c.args):
+                continue
+            a0 = c.args[0]
+            uses = [x for x in ast.walk(a0) if isinstance(x, ast.Attribute) and x.attr == 'pattern'
+                    and isinstance(x.value, ast.Name)]
+            if not uses:
+                continue
+            if env is None:
+                env = ctx.fold.func_env(fi)
+            for u in uses:
+                rv = env.get(u.value.id)
+                if not isinstance(rv, RegexVal):
+                    continue
+                need = rv.flags & ~_re.U
+                has_flags = any(k.arg == 'flags' for k in c.keywords) or \
+                    len(c.args) > {'sub': 4, 'subn': 4, 'split': 3}.get((call_name(c) or '')[3:], 2)
+                n += 1
+                if need and not has_flags:
+                    ctx.violation(rule, f"{fi.qualname}: {norm(c)[:60]}",
+                                  f"`{u.value.id}.pattern` is applied through re.{(call_name(c) or '')[3:]} without "
+                                  f"{u.value.id}'s flags ({_re.RegexFlag(need)!s}): e.g. upper-case spellings stop matching",
+                                  key=f"{rule}|{fi.qualname}|{u.value.id}", where=loc(fi, c))
+                else:
+                    ctx.ok(rule, f"{fi.qualname}: {norm(c)[:60]}", 'flags preserved / none needed')
+    return n
